@@ -119,6 +119,49 @@ def spelling_family():
     return fam
 
 
+ANCHOR_DOC = (
+    "h1: {plain: &v shared}\n"
+    "h2: {&k2 key2: &v2 val}\n"
+    "h3: {&k3 key3: other}\n"
+    "h4: {x: y}\n"
+    "h5: {&k5 key5: *v}\n"
+    "h6: {z: *v2}\n")
+ANCHOR_CASES = [
+    # has_child(&name): the hashes with a child whose key or value bears it
+    ("v", ["h1", "h5"]), ("v2", ["h2", "h6"]), ("k2", ["h2"]),
+    ("k3", ["h3"]), ("k5", ["h5"]), ("nope", []),
+]
+
+
+def anchored_child_family(st):
+    from yamlpath import Processor
+    doc = corpus.load(ANCHOR_DOC)
+    names = ["h1", "h2", "h3", "h4", "h5", "h6"]
+    for anchor, want in ANCHOR_CASES:
+        for inv in (False, True):
+            for sep in (".", "/"):
+                ptext = ("/*[%shas_child(&%s)][name()]" if sep == "/" else
+                         "*[%shas_child(&%s)][name()]") % (
+                             "!" if inv else "", anchor)
+                st.evaluations += 1
+                st.transitions += 1
+                st.validated += 1
+                case = {"doc": ANCHOR_DOC, "path": ptext,
+                        "anchored_child": True}
+                exp = [n for n in names if (n in want) != inv]
+                try:
+                    got = [str(nc.node) for nc in Processor(
+                        corpus.LOG, doc).get_nodes(ptext, mustexist=False)]
+                except Exception as ex:   # pylint: disable=broad-except
+                    got = "%s: %s" % (type(ex).__name__, str(ex)[:80])
+                st.states += 1
+                st.sig("anchored-child", anchor, inv)
+                if got != exp:
+                    st.fail("has_child(&anchor)|%s" % (
+                        "inverted" if inv else "plain"), case, repr(exp),
+                            repr(got))
+
+
 def nav(pos):
     segs = []
     for ref in pos:
@@ -214,8 +257,21 @@ def run_shard(shard):
                 doc = corpus.load(text)
         if ci == lo and plist:
             st.sample({"doc": text, "path": plist[len(plist) // 3][1]})
+    if lo == 0:
+        anchored_child_family(st)
     return st
 
 
-replay = C01.replay
+def replay(case):
+    if case.get("anchored_child"):
+        st = core.Stats(None)
+        anchored_child_family(st)
+        for lst in st.fails.values():
+            for f in lst:
+                if f["case"]["path"] == case["path"]:
+                    return f
+        return None
+    return C01.replay(case)
+
+
 repro = C01.repro
